@@ -12,10 +12,11 @@
    model of the compiled code (w >= 25: undefined shift / wrong values; empty runs consume a byte),
    each with a computed witness that the check replays on the real code (known findings). *)
 From Coq Require Import NArith ZArith Arith List Bool.
-From Pq Require Import Base.Bytes Base.Err Codec.Varint Codec.Zigzag Codec.Bitpack
+From Pq Require Import Base.Bytes Base.Err Base.ListX Codec.Varint Codec.Zigzag Codec.Bitpack
   Codec.Hybrid Impl.CVarint Impl.CBitpack Impl.CRle Impl.CDelta
   Codec.Plain Proofs.CodecProofs Proofs.PlainProofs Proofs.HybridProofs
-  Proofs.CBitpackProofs Proofs.CRleProofs Proofs.CVarintProofs Proofs.CDeltaProofs.
+  Codec.Delta Impl.CHybrid Impl.PyPack Proofs.DeltaProofs Proofs.CBitpackProofs Proofs.CRleProofs Proofs.CVarintProofs
+  Proofs.CDeltaProofs Proofs.CBoolProofs Proofs.CHybridProofs Proofs.CPlainProofs.
 Import ListNotations.
 Open Scope N_scope.
 
@@ -72,6 +73,14 @@ Theorem C11_boolean_roundtrip : forall bs rest,
 Proof. exact bool_roundtrip. Qed.
 Print Assumptions C11_boolean_roundtrip.
 
+(* DELTA_BINARY_PACKED: any bit width of the type, any block shape whose miniblocks hold a multiple of 8
+   values, any list of in-range values, anything following the stream *)
+Theorem C11_delta_roundtrip : forall bits q mp vs rest,
+  1 <= bits -> (1 <= q)%nat -> (1 <= mp)%nat -> Forall (in_range bits) vs ->
+  delta_dec bits (delta_enc bits (N.of_nat (8 * q * mp)) (N.of_nat mp) vs ++ rest) = Some (vs, rest).
+Proof. exact delta_roundtrip. Qed.
+Print Assumptions C11_delta_roundtrip.
+
 (* ---- impl = spec ---- *)
 (* cencoding.read_bitpacked: a run of g groups (8g values) of width 0 < w <= 24 whose g*w bytes are
    present: no read outside the input, no undefined shift, exactly min(8g, capacity) values stored -
@@ -97,6 +106,66 @@ Theorem C11_read_rle_correct : forall w count isz cap input,
         d_written := isz * N.min count (cap / isz) |}.
 Proof. exact read_rle_correct. Qed.
 Print Assumptions C11_read_rle_correct.
+
+(* cencoding.read_bitpacked1 (booleans, width-1 levels): every count, every output capacity *)
+Theorem C11_read_bitpacked1_correct : forall inp count cap,
+  bytes_ok inp -> (N.min count cap + 7) / 8 <= N.of_nat (length inp) ->
+  c_read_bitpacked1 inp count cap =
+  Ok {| d_vals := bool_dec (N.min count cap) inp; d_used := (count + 7) / 8; d_written := N.min count cap |}.
+Proof. exact read_bitpacked1_correct. Qed.
+Print Assumptions C11_read_bitpacked1_correct.
+
+(* encoding.read_plain_boolean *)
+Theorem C11_read_plain_boolean_correct : forall raw count,
+  bytes_ok raw -> (count + 7) / 8 <= N.of_nat (length raw) ->
+  py_read_plain_boolean raw count = Ok (bool_dec count raw).
+Proof. exact read_plain_boolean_correct. Qed.
+Print Assumptions C11_read_plain_boolean_correct.
+
+(* writer.convert's np.pad / np.packbits idiom (witness model of the relation the check evaluates on the real bytes) *)
+Theorem C11_packbits_is_bp1 : forall vs, Forall (fun b => b < 2) vs ->
+  bool_dec (N.of_nat (length vs)) (py_bool_pack vs) = vs.
+Proof. exact packbits_is_bp1. Qed.
+Print Assumptions C11_packbits_is_bp1.
+
+(* cencoding.read_rle_bit_packed_hybrid: any stream of well-formed runs (RLE of any width <= 32, counts < 2^30;
+   bit-packed runs of width 0 < w <= 24, or width 1 with item size 1), anything behind it, any output capacity:
+   exactly min(total, capacity) values - the runs' values in order - and the cursor stays inside the stream *)
+Theorem C11_hybrid_correct : forall w isz cap rs rest,
+  isz = 1 \/ isz = 4 -> Forall (irun_ok w isz) rs -> rs <> [] -> bytes_ok rest ->
+  exists u, u <= lenN (hyb_enc w rs) /\
+    c_read_hybrid (hyb_enc w rs ++ rest) w (lenN (hyb_enc w rs)) cap isz =
+    Ok {| d_vals := map (tr isz) (firstn (N.to_nat (N.min (lenN (allvals rs)) (cap / isz))) (allvals rs));
+          d_used := u;
+          d_written := isz * N.min (lenN (allvals rs)) (cap / isz) |}.
+Proof. exact hybrid_correct. Qed.
+Print Assumptions C11_hybrid_correct.
+
+Theorem C11_hybrid_prefixed_correct : forall w isz cap rs rest,
+  isz = 1 \/ isz = 4 -> Forall (irun_ok w isz) rs -> rs <> [] -> bytes_ok rest ->
+  lenN (hyb_enc w rs) < 2 ^ 32 ->
+  exists u, u <= 4 + lenN (hyb_enc w rs) /\
+    c_read_hybrid (hyb_enc_len w rs ++ rest) w 0 cap isz =
+    Ok {| d_vals := map (tr isz) (firstn (N.to_nat (N.min (lenN (allvals rs)) (cap / isz))) (allvals rs));
+          d_used := u;
+          d_written := isz * N.min (lenN (allvals rs)) (cap / isz) |}.
+Proof. exact hybrid_prefixed_correct. Qed.
+Print Assumptions C11_hybrid_prefixed_correct.
+
+(* speedups.unpack_byte_array / pack_byte_array, cencoding.encode_unsigned_varint *)
+Theorem C11_unpack_byte_array_correct : forall xs extra, Forall item_ok xs ->
+  c_unpack_byte_array (ba_enc xs) (N.of_nat (length xs + extra)) = UOk (map Some xs ++ repeat None extra).
+Proof. exact unpack_byte_array_correct. Qed.
+Print Assumptions C11_unpack_byte_array_correct.
+
+Theorem C11_pack_byte_array_is_spec : forall xs, Forall item_ok xs -> c_pack_byte_array xs = ba_enc xs.
+Proof. exact pack_byte_array_is_spec. Qed.
+Print Assumptions C11_pack_byte_array_is_spec.
+
+Theorem C11_enc_varint_correct : forall x cap, x < 2 ^ 64 -> N.of_nat (length (uleb_enc x)) <= cap ->
+  c_enc_varint x cap = (uleb_enc x, cap - N.of_nat (length (uleb_enc x))).
+Proof. exact enc_varint_correct. Qed.
+Print Assumptions C11_enc_varint_correct.
 
 (* cencoding.delta_read_bitpacked: a miniblock of 8g values of every width 0 < w <= 28 *)
 Theorem C11_delta_read_bitpacked_correct : forall w g input,
